@@ -8,4 +8,5 @@ cd coq && coq_makefile -f _CoqProject -o Makefile > /dev/null && timeout 3000 ma
 cd /verif
 ocaml/build.sh || echo "setup: ocaml build failed"
 (cd harness && RUSTFLAGS="--cfg weechess_verif" cargo build --offline --profile chk > /verif/.setup-cargo.log 2>&1 || tail -30 /verif/.setup-cargo.log)
+(cd /repo && CARGO_TARGET_DIR=/verif/harness/target-cli cargo build --offline --release -p weechess_cli > /verif/.setup-cli.log 2>&1 || tail -20 /verif/.setup-cli.log)
 echo setup done
